@@ -117,6 +117,8 @@ class Gen:
                     k = r.choice([arity - 1, arity])
                 elif kind == "rest":
                     k = arity + r.choice([0, 1, 3])
+                elif kind == "optrest":
+                    k = arity + r.choice([0, 0, 1, 2, 3, 5])
                 else:
                     k = arity
                 return [name] + [self.gen_int(depth - 1) for _ in range(max(k, 0))]
@@ -327,7 +329,7 @@ class Gen:
 
     def gen_defn(self, depth):
         r = self.rng
-        kind = r.choice(["plain", "plain", "opt", "rest", "rec", "keys", "named", "destr"])
+        kind = r.choice(["plain", "plain", "opt", "rest", "rec", "keys", "named", "destr", "optrest"])
         if self.no_capture and (self.in_loop or kind == "rec"):
             return [["log", self.gen_int(depth - 1)]]
         self.features.add("defn-" + kind)
@@ -357,6 +359,11 @@ class Gen:
             stmts, e = self.gen_block(depth - 1, r.choice([0, 1]))
             body = stmts + [["+", e, ["or", o, 50]]]
             arity += 1
+        elif kind == "optrest":
+            o1, o2, o = self.fresh(False), self.fresh(False), self.fresh(False)
+            params = B(*(ps + ["&opt", o1, o2, "&", o]))
+            stmts, e = self.gen_block(depth - 1, r.choice([0, 1]))
+            body = stmts + [["+", e, ["or", o1, 50], ["or", o2, 7], ["length", o]]]
         elif kind == "rest":
             o = self.fresh(False)
             params = B(*(ps + ["&", o]))
@@ -390,8 +397,19 @@ class Gen:
         self.in_fn -= 1
         self.fn_base.pop()
         self.pop()
-        self.declare(name, "fn", (arity, {"opt": "opt", "rest": "rest"}.get(kind, "plain")))
-        return [["defn", name, params] + body]
+        self.declare(name, "fn", (arity, {"opt": "opt", "rest": "rest", "optrest": "optrest"}.get(kind, "plain")))
+        out = [["defn", name, params] + body]
+        if kind in ("optrest", "opt", "rest") and not self.no_capture:
+            # a caller that first makes a call with many arguments (stale values above the frame) and then tail-calls with the optional ones omitted
+            tname = "fn%d" % self.counter
+            self.counter += 1
+            t1 = self.fresh(False)
+            req = [t1] * len(ps)
+            self.features.add("tailcall-omitting-optionals")
+            out.append(["defn", tname, B(t1), ["log", ["length", A(901, 902, 903, 904, 905, t1)]], [name] + req])
+            out.append(["log", [tname, r.choice([0, 3, 128])]])
+            out.append(["log", ["+", 1, [tname, 4]]])
+        return out
 
     def gen_closures_in_loop(self, depth):
         r = self.rng
